@@ -313,6 +313,9 @@ pub struct CreateCase {
     pub len: usize,
     pub seed: u64,
     pub tracker: String,
+    /// the command was run before for the same file name when the file had this length (the .torrent exists already)
+    #[serde(default)]
+    pub earlier_len: Option<usize>,
 }
 
 fn create_strategy() -> BoxedStrategy<CreateCase> {
@@ -325,8 +328,9 @@ fn create_strategy() -> BoxedStrategy<CreateCase> {
         ],
         any::<u64>(),
         prop_oneof![Just("http://127.0.0.1:8000".to_string()), "[a-z]{1,8}://[a-z0-9.]{1,12}(:[0-9]{1,4})?(/[a-z]{0,6})?"],
+        prop_oneof![2 => Just(None), 1 => prop::sample::select(vec![0usize, 5, 262145, 600000, 1000]).prop_map(Some)],
     )
-        .prop_map(|(file_name, len, seed, tracker)| CreateCase { file_name, len, seed, tracker })
+        .prop_map(|(file_name, len, seed, tracker, earlier_len)| CreateCase { file_name, len, seed, tracker, earlier_len })
         .boxed()
 }
 
@@ -340,6 +344,12 @@ pub fn check_create(c: &CreateCase) -> Outcome {
     let cwd = fresh_cwd();
     let data = content(c.seed, c.len);
     let path = cwd.join(&c.file_name);
+    if let Some(el) = c.earlier_len {
+        // an earlier run for the same name, possibly with a longer file and a longer tracker string
+        std::fs::write(&path, &content(c.seed ^ 1, el)).unwrap();
+        let _ = catch(|| rdest::Metainfo::create_file(&path, &format!("{}/a/much/longer/announce/path", c.tracker)));
+        o.class("torrent-file-existed-already");
+    }
     std::fs::write(&path, &data).unwrap();
     match catch(|| rdest::Metainfo::create_file(&path, &c.tracker)) {
         Err(p) => {
@@ -434,7 +444,7 @@ pub fn def() -> PropDef {
                 cases: |t| t.pick(1_500, 30_000),
                 run: |ctx| run_proptest(ctx, "create", create_strategy(), check_create),
                 replay: |v| replay_case::<CreateCase>(v, check_create),
-                min_class: &[("length-within-1-of-multiple-of-256KiB", 0.2), ("more-than-one-piece", 0.195)],
+                min_class: &[("length-within-1-of-multiple-of-256KiB", 0.2), ("more-than-one-piece", 0.15), ("torrent-file-existed-already", 0.15)],
             },
         ],
     }
